@@ -597,7 +597,8 @@ def run_check(pid, tier, seed, replay=None):
                     ctx.broken("axioms: %s depends on %s" % (nm, extra), txt)
     # thorough tier: independent re-check of the compiled cone with coqchk, axioms listed
     if tier == "thorough" and pr["ok"]:
-        rc, out, wall = sh(["coqchk", "-o", "-silent", "-Q", ".", "Bec2", "Bec2.Properties.%s" % pid], 2400, cwd=COQ)
+        rc, out, wall = sh(["coqchk", "-o", "-silent", "-Q", ".", "Bec2", "Bec2.Properties.%s" % pid],
+                           int(os.environ.get("VERIF_COQCHK_LIMIT", "7200")), cwd=COQ)
         summary = out[out.find("CONTEXT SUMMARY"):] if "CONTEXT SUMMARY" in out else out[-1500:]
         ctx.extra["coqchk"] = {"rc": rc, "wall_s": round(wall, 1), "summary": " ".join(summary.split())[:1500]}
         m = re.search(r"\* Axioms:(.*?)\* Constants/Inductives relying on type-in-type", summary, re.S)
